@@ -34,6 +34,10 @@ where
     fn map_soft_error(&self, _err: Self::Error) -> Result<Self::Output, Self::Error> {
         Ok(P::Output::default())
     }
+
+    fn undo_on_soft_error(&self) -> bool {
+        true
+    }
 }
 
 impl<P> MapDecoratorMarker for OrDefaultParser<P> {}
